@@ -333,7 +333,23 @@ def run_history(desc):
             else:
                 must_raise = True
                 how = s["how"] % 6
-                if how == 5:
+                if how == 4 and s["k"] % 2 and len(tl) >= 2:
+                    # a lifetime parameter over a dimension that shares a letter with a model dimension but is ANOTHER
+                    # dimension (one item, or one item more): not a dimension of the model, must be refused
+                    l = tl[1 + s["j"] % (len(tl) - 1)]
+                    its = list(items[l])
+                    other_items = its[:1] if (s["j"] // 2) % 2 == 0 and len(its) > 1 else its + ["extra item"]
+                    od = fd.Dimension(letter=l, name="Other " + l, items=other_items)
+                    p = fd.FlodymArray(dims=fd.DimensionSet(dim_list=[od]), values=np.full(len(other_items), 2.0))
+                    which = s["i"] % 3
+                    if which == 0:
+                        call = lambda: fd.NormalLifetime(dims=tds, mean=p, std=1.0)
+                    elif which == 1:
+                        mdl = fd.WeibullLifetime(dims=tds)
+                        call = lambda: mdl.set_prms(weibull_shape=2.0, weibull_scale=p)
+                    else:
+                        call = lambda: fd.InflowDrivenDSM(dims=tds, lifetime_model=fd.FixedLifetime(dims=tds, mean=p))
+                elif how == 5:
                     # a lifetime model whose dimensions differ from the stock's although the SHAPE agrees:
                     # non-time dimensions in another order or replaced by another dimension of equal length
                     cands = []
